@@ -543,12 +543,22 @@ func main() {
 		}
 		defer os.Chdir("/")
 
-		// --- replay of one stored pair
+		// --- replay of one stored input
 		var rp struct {
-			A any `json:"a"`
-			B any `json:"b"`
+			Kind     string    `json:"kind"`
+			A        any       `json:"a"`
+			B        any       `json:"b"`
+			Tree     any       `json:"tree"`
+			Variants []variant `json:"variants"`
+			VA       variant   `json:"va"`
+			VB       variant   `json:"vb"`
+			Ops      []mop     `json:"ops"`
 		}
-		if c.ReadReplay(&rp) && rp.A != nil && rp.B != nil {
+		if c.ReadReplay(&rp) && rp.Kind != "" {
+			replayFollowup(c, rp.Kind, rp.A, rp.B, rp.Tree, rp.Variants, rp.VA, rp.VB, rp.Ops)
+			return
+		}
+		if c.Replay != "" && rp.A != nil && rp.B != nil {
 			a, b := fromJS(rp.A), fromJS(rp.B)
 			sa, sb := realStream(a), realStream(b)
 			c.Case(lib.App("CStream", a.coq(nil), lib.Str(sa)), a.js(), a.key(), true)
@@ -717,6 +727,12 @@ func main() {
 			}
 			c.Case(lib.App("CClass", a.coq(nil), b.coq(nil), "None"), map[string]any{"pair": pairJS(a, b), "class": nil}, "n"+a.key()+b.key(), false)
 		}
+		// --- 6. follow-up streams: top-level symlinks with absolute targets, creation order, the memo
+		setupExt()
+		defer os.RemoveAll(ext)
+		runTops(c)
+		runOrder(c, add)
+		runMemo(c)
 		c.Exhaustive(true)
 	})
 }
